@@ -255,7 +255,30 @@ def replay_file(path: str, quiet: bool = False) -> tuple[int, dict]:
     return (1 if ok else 0), res
 
 
+def _sweep_scratch() -> None:
+    """Remove scratch directories left behind by workers that were killed
+    (their names carry the pid of the process that made them)."""
+    import re
+    import shutil
+    from .fs import SCRATCH_BASE
+    try:
+        names = os.listdir(SCRATCH_BASE)
+    except OSError:
+        return
+    for n in names:
+        m = re.match(r"verif-(\d+)-", n)
+        if not m:
+            continue
+        try:
+            os.kill(int(m.group(1)), 0)
+        except ProcessLookupError:
+            shutil.rmtree(os.path.join(SCRATCH_BASE, n), ignore_errors=True)
+        except OSError:
+            pass
+
+
 def cmd_check(args) -> int:
+    _sweep_scratch()
     prop = args.prop
     tier = args.tier or os.environ.get("VERIF_TIER", "quick")
     base_seed = int(args.seed if args.seed is not None
